@@ -19,6 +19,15 @@ relational laws of the statement (one-criterion IFS = IF, criteria commute,
 "=x"/"<>x" partition, AVERAGEIFS = SUMIFS/COUNTIFS) are checked between the
 observed values themselves.  An exception escaping a function is a
 discrepancy ("cells of any type never make the function fail").
+
+Besides the numeric data range and the criteria range itself the consumers
+aggregate a third range of mixed cells (blank, numbers, text, a logical, an
+error value; Criteria!Mixed, every starting point for ranges of one or two
+cells): SUMIF/AVERAGEIF(range, criterion, mixed) against
+SUMIFS/AVERAGEIFS(mixed, range, criterion) and both against the export.
+One-cell ranges reach the library as scalars, also in the direct calls.  A
+criterion may be read from a blank cell (it is the number 0), and texts may
+hold a line break.
 """
 import json
 import os
@@ -34,6 +43,9 @@ from harness.evidence import Verdict
 
 PID = 'C15'
 SCALE = 2
+# proposed known finding: "=x" and "<>x" both select a text cell that reads as
+# the number x (pinned by tests/test_excelutil.py::test_criteria_parser)
+FINDING_NUMTEXT_BOTH = 'C15_r3_4'
 
 
 def num(k):
@@ -59,8 +71,14 @@ def pyval(cell, rnd):
     raise ValueError(cell)
 
 
+BLANK_CELL = 'AV1'      # never written: the criterion read from a blank cell
+
+
 def crit_text(cr):
+    """the criterion as text; None for the one read from a blank cell"""
     op, v = cr
+    if v[0] == 'Z':
+        return None
     return op + (num(v[1])[1] if v[0] == 'N' else ''.join(v[1]))
 
 
@@ -75,9 +93,21 @@ def crit_py(cr, rnd):
 def crit_formula(cr, rnd):
     """criterion as it is written inside a formula"""
     op, v = cr
+    if v[0] == 'Z':
+        return BLANK_CELL
     if v[0] == 'N' and op == '' and rnd.random() < 0.5:
         return num(v[1])[1]
     return '"' + crit_text(cr).replace('"', '""') + '"'
+
+
+def number_of_text(cell):
+    """the number a text cell reads as, else None"""
+    if cell[0] != 'S':
+        return None
+    try:
+        return float(''.join(cell[1]))
+    except ValueError:
+        return None
 
 
 def flip(cr):
@@ -150,7 +180,7 @@ def check_vector(vec, seed, full):
     weights = [1 << i for i in range(n)]
     ctexts = [crit_text(c) for c in crits]
     case = dict(range=vals, cells=rng, criteria=ctexts, crits=crits)
-    viol, keys = [], []
+    viol, known, keys = [], [], []
     ncase = 0
 
     def bad(label, text, extra=None):
@@ -184,16 +214,16 @@ def check_vector(vec, seed, full):
                        f'may {[i + 1 for i in range(n) if may >> i & 1]})', extra)
         return m
 
-    def val_ok(label, got, key, extra=None):
+    def val_ok(label, got, key, extra=None, outs=outs):
         if not ran(label, got, extra):
             return
         if not enum:
             if not (xl.typeclass(got) in ('num', 'err')
-                    or key in ('omax', 'omin') and isinstance(got, bool)):
+                    or key in ('omax', 'omin', 'mmax', 'mmin') and isinstance(got, bool)):
                 bad(label, f'got {got!r}, neither a number nor an error value', extra)
             return
         allowed = [['R', o['count'], 1] for o in outs] if key == 'count' else union(outs, key)
-        if key in ('omax', 'omin') and isinstance(got, bool):
+        if key in ('omax', 'omin', 'mmax', 'mmin') and isinstance(got, bool):
             # a selected logical of the aggregated range: whether it counts
             # is left open, and so is the type in which MAXIFS/MINIFS hand it back
             got = int(got)
@@ -220,7 +250,7 @@ def check_vector(vec, seed, full):
 
     shapes = shapes_of(n)
     if not shapes:
-        return viol, ncase, keys, 0
+        return viol, known, ncase, keys, 0
 
     def mat(seq, h, w):
         return tuple(tuple(seq[r * w:(r + 1) * w]) for r in range(h))
@@ -254,8 +284,33 @@ def check_vector(vec, seed, full):
                call(stats.averageif, R[0], cpy[0]), 'oavg')
         val_ok('lib AVERAGEIF(range,crit,data)' + tag,
                call(stats.averageif, R[0], cpy[0], D), 'davg')
+    # the mixed third range, from every exported starting point; one-cell
+    # ranges also the way a compiled formula hands them over: as scalars
+    mixed = sorted(vec['mixed'], key=lambda m: m['o'])
+    for mx in mixed:
+        mvals = [pyval(c, rnd) for c in mx['cells']]
+        forms = [('', R, mat(mvals, h, w))]
+        if n == 1:
+            forms.append((' scalars', [vals[0]] * k, mvals[0]))
+        for how, Rs, Mx in forms:
+            prs = [x for j in range(k) for x in (Rs[j], cpy[j])]
+            mtag = f'{how} mixed+{mx["o"]}{tag}'
+            ex = dict(mixed=mvals)
+            ifs = {}
+            for name, fn, key in (('SUMIFS', excellib.sumifs, 'msum'),
+                                  ('AVERAGEIFS', stats.averageifs, 'mavg'),
+                                  ('MAXIFS', stats.maxifs, 'mmax'),
+                                  ('MINIFS', stats.minifs, 'mmin')):
+                ifs[name] = call(fn, Mx, *prs)
+                val_ok(f'lib {name}(mixed)' + mtag, ifs[name], key, ex, mx['outs'])
+            if k == 1:
+                for name, fn, key in (('SUMIF', excellib.sumif, 'msum'),
+                                      ('AVERAGEIF', stats.averageif, 'mavg')):
+                    got = call(fn, Rs[0], cpy[0], Mx)
+                    val_ok(f'lib {name}(range,crit,mixed)' + mtag, got, key, ex, mx['outs'])
+                    same(f'lib {name}S={name} (mixed)' + mtag, ifs[name + 'S'], got, ex)
     if not full:
-        return viol, ncase, keys, 0
+        return viol, known, ncase, keys, 0
 
     # ---- workbook ------------------------------------------------------------
     cells = {}
@@ -330,8 +385,9 @@ def check_vector(vec, seed, full):
             plan.append(('val', 'AVERAGEIF(range,crit)' + tag,
                          formula(f'=AVERAGEIF({Rr[0]},{cf[0]})'), 'oavg'))
             if vec['part']:
-                # "=x" and "<>x" partition the fixed positions
-                ft = formula(f'=SUMIFS({Wr},{Rr[0]},"{crit_text(flip(crits[0]))}")')
+                # "=x" and "<>x" partition the range
+                twin = '"' + crit_text(flip(crits[0])).replace('"', '""') + '"'
+                ft = formula(f'=SUMIFS({Wr},{Rr[0]},{twin})')
                 plan.append(('part', '"=x"/"<>x" partition' + tag, (fm, ft), None))
         else:
             # criteria commute: the pairs in reversed and in rotated order
@@ -342,11 +398,29 @@ def check_vector(vec, seed, full):
             rol = ','.join(f'{Rr[j]},{cf[j]}' for j in list(range(1, k)) + [0])
             fr2 = formula(f'=COUNTIFS({rol})')
             plan.append(('same', 'criteria commute (COUNTIFS)' + tag, (fc, fr2), None))
+        # the mixed third range (every starting point; first shape only in
+        # the quick tier)
+        if si == 0 or full > 1:
+            for mx in mixed:
+                Mr = place([pyval(c, rnd) for c in mx['cells']], h, w)
+                mtag = f' mixed+{mx["o"]}{tag}'
+                fi = {}
+                for name, key in (('SUMIFS', 'msum'), ('AVERAGEIFS', 'mavg'),
+                                  ('MAXIFS', 'mmax'), ('MINIFS', 'mmin')):
+                    fi[name] = formula(f'={name}({Mr},{args})')
+                    plan.append(('val', f'{name}(mixed)' + mtag, fi[name], key, mx['outs']))
+                if k == 1:
+                    for name, key in (('SUMIF', 'msum'), ('AVERAGEIF', 'mavg')):
+                        f1 = formula(f'={name}({Rr[0]},{cf[0]},{Mr})')
+                        plan.append(('val', f'{name}(range,crit,mixed)' + mtag, f1, key,
+                                     mx['outs']))
+                        plan.append(('same', f'{name}S={name} (mixed)' + mtag,
+                                     (fi[name + 'S'], f1), None))
     try:
         model = xl.compile_wb(cells)
     except Exception as exc:       # noqa
         bad('workbook', f'does not compile: {exc!r}')
-        return viol, ncase, keys, 0
+        return viol, known, ncase, keys, 0
     got = []
     for addr in formulas:
         try:
@@ -354,12 +428,12 @@ def check_vector(vec, seed, full):
         except Exception as exc:   # noqa
             got.append(exc)
     sels = {}
-    for kind, label, fi, key in plan:
+    for kind, label, fi, key, *rest in plan:
         label = 'formula ' + label
         if kind == 'sel':
             sels[fi] = sel_ok(label, got[fi], dict(formula=cells[formulas[fi]]))
         elif kind == 'val':
-            val_ok(label, got[fi], key, dict(formula=cells[formulas[fi]]))
+            val_ok(label, got[fi], key, dict(formula=cells[formulas[fi]]), *rest)
         elif kind == 'same':
             same(label, got[fi[0]], got[fi[1]],
                  dict(formulas=[cells[formulas[i]] for i in fi]))
@@ -388,12 +462,24 @@ def check_vector(vec, seed, full):
                 continue
             if isinstance(a, Exception) or not is_int(a) or not is_int(b):
                 continue
-            a, b, fx = int(a), int(b), vec['fixed']
-            if (a ^ b) & fx != fx:
-                both = [i + 1 for i in range(n) if a & b & fx >> i & 1]
-                none = [i + 1 for i in range(n) if ~(a | b) & fx >> i & 1]
-                bad(label, f'positions selected by both {both}, by neither {none}', ex)
-    return viol, ncase, keys, len(formulas)
+            a, b, fx = int(a), int(b), vec['compl']
+            both = [i for i in range(n) if a & b & fx >> i & 1]
+            none = [i for i in range(n) if ~(a | b) & fx >> i & 1]
+            # named deviation: a text cell that reads as the number x is
+            # selected by "=x" (as the number) and by "<>x" (as a text)
+            x = crits[0][1]
+            named = [i for i in both
+                     if x[0] == 'N' and number_of_text(rng[i]) == x[1] / SCALE]
+            if named:
+                ncase += 1
+                known.append((f'{label}: text cells {[vals[i] for i in named]} at positions '
+                              f'{[i + 1 for i in named]} are selected by both '
+                              f'"{ctexts[0]}" and "{crit_text(flip(crits[0]))}"', dict(case, **ex)))
+                both = [i for i in both if i not in named]
+            if both or none:
+                bad(label, f'positions selected by both {[i + 1 for i in both]}, '
+                           f'by neither {[i + 1 for i in none]}', ex)
+    return viol, known, ncase, keys, len(formulas)
 
 
 def _work(args):
@@ -437,7 +523,7 @@ def run(tier, seed):
     if not any(len(x['crits']) == 2 for x in vectors):
         raise tlc.MachineryFailure('vacuous: action AddCrit never taken twice')
     # states without a criterion (the empty range, the bare ranges) are not exported
-    bare = sum(21 ** i for i in range(0, 2 if tier == 'quick' else 3))
+    bare = sum(22 ** i for i in range(0, 2 if tier == 'quick' else 3))
     if len(vectors) < res.distinct - bare:
         raise tlc.MachineryFailure(
             f'export incomplete: {len(vectors)} vectors for {res.distinct} states')
@@ -483,7 +569,7 @@ def run(tier, seed):
     nform = nfull = 0
     with pool as ex:
         for task, results in zip(tasks, ex.map(_work, tasks)):
-            for vec, (viol, ncase, keys, nf) in zip(task[0], results):
+            for vec, (viol, known, ncase, keys, nf) in zip(task[0], results):
                 ck = canon(vec)
                 for key in keys:
                     v.distinct.add((key, ck))
@@ -492,6 +578,8 @@ def run(tier, seed):
                 nfull += nf > 0
                 for desc, case in viol:
                     v.violation(desc, case)
+                for desc, case in known:
+                    v.known_finding(FINDING_NUMTEXT_BOTH, desc, case)
                 if nf and len(vec['rng']) > 2:
                     v.sample(dict(range=vec['rng'], criteria=[crit_text(c) for c in vec['crits']],
                                   must=vec['must'], may=vec['may']))
@@ -505,13 +593,14 @@ def run(tier, seed):
         exhaustive=True, exhaustive_vectors=exhaustive_n,
         simulated_vectors=len(long_vecs), workbooks_built=nfull,
         formulas_evaluated=nform, vectors_not_enumerable=skipped,
-        bounds=dict(cells=21, criteria=59, second_criteria=12,
+        bounds=dict(cells=22, criteria=63, second_criteria=12, mixed_third_range=7,
                     exhaustive='1 cell x 1..2 criteria' if tier == 'quick'
                     else '1 cell x 1..2 criteria, 2 cells x 1 criterion',
                     simulated='up to 15 cells (5x3 / 3x5), 1..3 criteria'),
         coverage_actions={k: list(c) for k, c in res.coverage.items()},
         laws=['Total', 'OneCriterion', 'Commute', 'Narrowing', 'Partition', 'NoOpIsEq',
-              'TextVsNumber', 'Trichotomy', 'CaseInsensitive', 'StarLaw', 'AverageLaw'],
+              'TextVsNumber', 'Trichotomy', 'CaseInsensitive', 'StarLaw', 'BlankIsZero',
+              'LineBreakLaw', 'AverageLaw'],
         unconstrained=[
             'error cell in a criteria range, against any criterion',
             'logical cell against a numeric criterion or a < <= > >= criterion',
@@ -520,7 +609,7 @@ def run(tier, seed):
             'text ordering when either side is not purely alphabetic',
             'whether a selected logical of the summed range counts as 1/0 or is skipped',
             'which error is returned when several selected cells hold different errors'],
-        not_generated=['logical criteria', 'criteria read from a blank cell',
+        not_generated=['logical criteria',
                        '~ before a character other than ? * ~',
                        'ordering operators with wildcard operands',
                        'sum_range of a different shape than the criteria range'],
@@ -536,7 +625,7 @@ def tla(x):
     if isinstance(x, list):
         return '<<' + ', '.join(tla(y) for y in x) + '>>'
     if isinstance(x, str):
-        return '"' + x + '"'
+        return '"' + x.replace('\\', '\\\\').replace('"', '\\"').replace('\n', '\\n') + '"'
     return str(x)
 
 
@@ -564,9 +653,17 @@ def replay(path):
                                    + res.stdout[-1500:])
     vec = res.json[0]
     seed = int(os.environ.get('VERIF_SEED', '0') or 0)
-    viol, ncase, keys, nf = check_vector(vec, seed, 2)
+    viol, known, ncase, keys, nf = check_vector(vec, seed, 2)
     print(f'replay {PID}: range {rec["case"]["range"]}, criteria {rec["case"]["criteria"]}; '
           f'{ncase} cases, {nf} formulas')
+    from harness.evidence import load_findings
+    listed = any(e['id'] == FINDING_NUMTEXT_BOTH and e.get('status') == 'known'
+                 for e in load_findings(PID))
+    for desc, case in known:
+        if listed:
+            print(f'KNOWN-FINDING: property={PID} {FINDING_NUMTEXT_BOTH} {desc}')
+        else:
+            viol.append((desc + f' [unlisted finding id {FINDING_NUMTEXT_BOTH}]', case))
     for desc, case in viol:
         print(f'VIOLATION property={PID} replay={path}\n  {desc}')
     return 1 if viol else 0
